@@ -420,6 +420,16 @@ def install(I):
             return z3.BoolVal(True) if isinstance(v, Inf) else z3.Or(v.isinf, v.isneg, B.zreal(v.val) != 0)
         return B.zreal(v) != 0
 
+    @ext("array_equal")
+    def _array_equal(ctx, a, b, **k):
+        ctx.assumed_ext.add("numpy.array_equal(a, b): same length and equal elements")
+        if a is b:
+            return True
+        a, b = as_narr(I, ctx, a), as_narr(I, ctx, b)
+        if a is None or b is None:
+            raise Unsupported("numpy.array_equal on scalars")
+        return B.wrap(arr_eq(I, ctx, a, b))
+
     @ext("copyto")
     def _copyto(ctx, dst, src, **k):
         """numpy.copyto(dst, src): writes into the array object dst; every holder of that object sees it. Recorded so that contracts
